@@ -3,14 +3,13 @@ sys.path.insert(0, '/verif'); sys.path.insert(0, '/verif/tools')
 import regress
 from concurrent.futures import ProcessPoolExecutor
 first = {
- "C01-e1": "C02, C05 (own property silent)", "C01-e2": "none (ANALYSIS-ERROR in C01/C03/C05/C11: scenario could not decide `other.mean != self.mean`)",
- "C02-e1": "none", "C02-e2": "C03 (own property silent)", "C03-e1": "C03", "C03-e2": "C03, C05", "C04-e1": "none", "C04-e2": "none",
- "C05-e1": "C03, C05", "C05-e2": "none", "C06-e1": "C06, C08", "C06-e2": "C06, C08", "C07-e1": "C01, C05, C07, C10", "C07-e2": "C01, C07",
- "C08-e1": "C08", "C08-e2": "C05, C06, C08", "C09-e1": "none", "C09-e2": "C09", "C10-e1": "none", "C10-e2": "C01, C07 (own property silent)",
- "C11-e1": "C12, C17 (own property silent)", "C11-e2": "none", "C12-e1": "C17 (own property silent)", "C12-e2": "C12", "C13-e1": "none", "C13-e2": "none",
- "C14-e1": "none", "C14-e2": "C14", "C15-e1": "none", "C15-e2": "C06 (ANALYSIS-ERROR in C01/C04/C10/C15: reader without ed())", "C16-e1": "none", "C16-e2": "none",
- "C17-e1": "none (ANALYSIS-ERROR in C12/C17: wrapper table could not follow `fcn.name = name`)", "C17-e2": "none"}
-jobs = [(os.path.basename(d), d + "/patch.diff", regress.PROPS) for d in sorted(glob.glob("/verif/seeded/*-e*"))]
+ "C01-f1": "C02 (own property: ANALYSIS-ERROR, a statement no scenario reaches)", "C01-f2": "C01", "C02-f1": "C01, C02, C03", "C02-f2": "C01, C02, C03",
+ "C03-f1": "C03, C05", "C03-f2": "C03, C11", "C04-f1": "none", "C04-f2": "none", "C05-f1": "C03, C05", "C05-f2": "C03, C11 (own property: ANALYSIS-ERROR)",
+ "C06-f1": "C06, C13", "C06-f2": "none", "C07-f1": "none", "C07-f2": "none", "C08-f1": "C08", "C08-f2": "none", "C09-f1": "C09", "C09-f2": "none",
+ "C10-f1": "C01 (own property silent)", "C10-f2": "C01, C07, C10, C15", "C11-f1": "C11", "C11-f2": "C03, C05 (own property silent)", "C12-f1": "C12", "C12-f2": "C12",
+ "C13-f1": "none", "C13-f2": "none", "C14-f1": "none", "C14-f2": "none", "C15-f1": "none", "C15-f2": "C04 (own property silent)", "C16-f1": "C16", "C16-f2": "none",
+ "C17-f1": "none", "C17-f2": "none"}
+jobs = [(os.path.basename(d), d + "/patch.diff", regress.PROPS) for d in sorted(glob.glob("/verif/seeded/*-f*"))]
 with ProcessPoolExecutor(max_workers=12) as ex:
     for name, res in ex.map(regress._one, jobs):
         own = name.split("-")[0]
